@@ -639,8 +639,10 @@ def ensemble_sift(X, nensembles=4, ensemble_noise=.2, noise_mode='single',
 
     p = mp.Pool(processes=nprocesses)
 
-    noise = None
-    args = [(X, noise_scaling, noise, noise_mode, sift_thresh, max_imfs, ii, imf_opts, envelope_opts, extrema_opts)
+    # Draw each member's noise here - forked workers all inherit the same random
+    # state so noise drawn within the workers is duplicated across processes.
+    args = [(X, noise_scaling, np.random.randn(*X.shape), noise_mode, sift_thresh, max_imfs, ii,
+             imf_opts, envelope_opts, extrema_opts)
             for ii in range(nensembles)]
 
     res = p.starmap(_sift_with_noise, args)
